@@ -133,8 +133,8 @@ EvFetch(n, D, V) ==
   /\ mst' = [min  |-> MinOfSeq([j \in 1..Len(V) |-> V[j][2]], mst.min),
              max  |-> MaxOfSeq([j \in 1..Len(V) |-> V[j][2]], mst.max),
              cost |-> [t \in Trials |-> MaxOfSeq([j \in 1..Len(V) |-> IF V[j][1] = t THEN V[j][3] ELSE 0], mst.cost[t])]]
-  \* a run that exited on its own before this poll and is registered as running: this poll has to see it
-  /\ xf' = xf \cup {t \in Trials : wst[t] = "ok" /\ life[t] = "running"}
+  \* a run that exited on its own or crashed before this poll and is registered as running: this poll has to see it
+  /\ xf' = xf \cup {t \in Trials : wst[t] \in {"ok", "fail"} /\ life[t] = "running"}
   /\ UNCHANGED <<envV, dl, life, dec, ps, ck, rmv, nstart, stopHeld, exh, phase, ldx, cq, flags>>
 
 \* the process of the current run of t told whether it found a checkpoint when it started (lock-step LocalBackend):
@@ -302,6 +302,9 @@ EvStopCrit(b) ==
                     \* C01 / C02: a run that exited on its own was polled in a complete iteration, and the loop still has
                     \* it registered as running (its last reports and its end were never passed on)
                     \cup Flag(\E t \in xf : life[t] = "running", "completed_unregistered")
+                    \* C13: a crashed process (the environment's truth, whatever status the back-end derived from it) that was
+                    \* polled in a complete iteration is registered as a failure, not as a success
+                    \cup Flag(\E t \in xf : wst[t] = "fail" /\ life[t] = "completed", "crash_registered_as_success")
   /\ stopHeld' = (stopHeld \/ b)
   /\ UNCHANGED <<envV, dl, life, dec, ps, ck, rmv, nstart, nhand, mst, exh, phase, dead, ldx, xf, cq>>
 
@@ -364,6 +367,7 @@ NothingRunningAtReturn == NoFlag("left_running") /\ NoFlag("no_stop_all") /\ ((p
 CountersMatch       == NoFlag("counters")
 \* C13
 FailureContained    == NoFlag("error_not_failed") /\ NoFlag("resume_failed_run") /\ NoFlag("unexpected_exception")
+                       /\ NoFlag("crash_registered_as_success")
 FailureLimit        == NoFlag("failure_limit") /\ NoFlag("failure_not_named")
 FailureNotifiedOnce == NoFlag("protocol_error") /\ NoFlag("failure_not_notified")
 \* C20
